@@ -2,6 +2,7 @@ package checks
 
 import (
 	"fmt"
+	"fortio.org/log"
 	"regexp"
 	"strings"
 	"time"
@@ -81,9 +82,21 @@ const c06Observe = "[a, b, c]"
 func c06Run(hist []string) *core.Viol {
 	text := strings.Join(hist, " ;; ")
 	cs := core.Case{Kind: "hist", Data: text}
-	for _, cfg := range []sessCfg{{}, {noReg: true, cacheOff: true}} {
+	cfgs := []sessCfg{{}, {noReg: true, cacheOff: true}}
+	if len(hist) <= 2 {
+		cfgs = append(cfgs, sessCfg{}, sessCfg{}) // the shorter histories also at debug log level and on a state without context
+	}
+	for ci, cfg := range cfgs {
 		in := ref.NewInterp()
 		x := newSess(cfg)
+		if ci == 2 {
+			prev := log.GetLogLevel()
+			log.SetLogLevelQuiet(log.Debug)
+			defer log.SetLogLevelQuiet(prev)
+		}
+		if ci == 3 {
+			x.noContext = true
+		}
 		in.Run(c06Init)
 		implEval(x, c06Init, 100000)
 		for i, op := range hist {
@@ -173,7 +186,7 @@ func runC06(c *core.Ctx) {
 		}
 	}
 	c.P.States = c.P.Traces
-	c.P.Bound = strings.Join(bounds, "; ") + "; default and plain configuration; all variables compared after every operation"
+	c.P.Bound = strings.Join(bounds, "; ") + "; default and plain configuration (histories of <=2 operations also at debug log level and on a state without context); all variables compared after every operation"
 }
 
 func init() {
